@@ -12,7 +12,7 @@ from vlib.core import Failure
 PROP = "C02"
 RULE = (
     "a case is a CONFIG (maxsize 1|2, block, 2-3 request threads with 1-2 requests each, optionally one thread calling "
-    "close(), an outcome script with at most one failing attempt: reset | 503 | connect refused, retries on | off, pool_timeout none | set) plus "
+    "close(), an outcome script with at most one failing attempt: reset | 503 | connect refused | a reply that is not HTTP (the socket stays open until the pool closes it), retries on | off, pool_timeout none | set) plus "
     "a SCHEDULE. Real threads run the real pool code on the in-memory network under vlib/sched.py, which owns every context "
     "switch: yield points are every line of _get_conn/_put_conn/_new_conn/close/_close_pool_connections/release_conn/"
     "HTTPResponse.close (thorough: also urlopen and _error_catcher, opcode granularity in _get_conn/_put_conn) and every "
@@ -89,7 +89,7 @@ def _validate(cfg):
     th = cfg.get("threads")
     if not isinstance(th, list) or not (2 <= len(th) <= 3) or any(n not in (1, 2) for n in th) or not isinstance(cfg.get("closer"), bool):
         raise core.InvalidCase
-    if cfg.get("fault") not in (None, "rreset", "503", "refused") or cfg.get("fault_at", 0) not in (0, 1, 2) or cfg.get("retries", "retry") not in ("retry", "none"):
+    if cfg.get("fault") not in (None, "rreset", "503", "refused", "garbage") or cfg.get("fault_at", 0) not in (0, 1, 2) or cfg.get("retries", "retry") not in ("retry", "none"):
         raise core.InvalidCase
 
 
@@ -105,6 +105,9 @@ def run_once(cfg, decisions=None, random_seq=None, deep=False, opcode=False):
         script.append(servers.ok(503, body_len=3))
     elif cfg["fault"] == "refused":
         script.append({"o": "refused"})
+    elif cfg["fault"] == "garbage":
+        # not an HTTP reply: unlike after a reset, http.client leaves the socket open and the pool has to close it
+        script.append({"o": "garbage"})
     srv = servers.ScriptServer(script, default=servers.ok(body_len=30))
 
     class Pool(urllib3.HTTPConnectionPool):
@@ -242,7 +245,7 @@ def check(cfg, s, obs) -> list[Failure]:
                     fails.append(Failure("lost-wakeup", {**sig0, "closewait": closewait, "pool_timeout": cfg["pool_timeout"] is not None}, f"request {r[2]} failed with EmptyPoolError although every connection was eventually returned: {brief()}"))
                 elif not issubclass(ecls, ue.HTTPError):
                     fails.append(Failure("internal-error", {**sig0, "exc": ecls.__name__, "thread": "req"}, f"request {r[2]} raised {ecls.__name__}: {msg}: {brief()}"))
-                elif cfg.get("retries", "retry") == "none" and cfg["fault"] in ("rreset", "refused") and n_failed_by_fault == 0:
+                elif cfg.get("retries", "retry") == "none" and cfg["fault"] in ("rreset", "refused", "garbage") and n_failed_by_fault == 0:
                     n_failed_by_fault += 1  # retries are off: the one scripted fault surfaces as that request's (documented) error
                 else:
                     # with one scripted fault and two retries every request can complete
@@ -262,14 +265,14 @@ def check_case(case):
 
 def configs(tier):
     out = []
-    for maxsize, block, threads, closer, fault, pto in itertools.product((1, 2), (True, False), ([1, 1], [2, 1], [1, 1, 1]), (False, True), (None, "rreset", "503", "refused"), (None, 0.05)):
+    for maxsize, block, threads, closer, fault, pto in itertools.product((1, 2), (True, False), ([1, 1], [2, 1], [1, 1, 1]), (False, True), (None, "rreset", "503", "refused", "garbage"), (None, 0.05)):
         if not block and pto is not None:
             continue
         if maxsize == 2 and threads == [1, 1] and not closer:
             continue  # no contention
         out.append({"maxsize": maxsize, "block": block, "threads": threads, "closer": closer, "fault": fault, "fault_at": 0 if fault != "503" else 1, "pool_timeout": pto})
     # the same with retries switched off: the scripted fault ends its request, the placeholder goes back while others wait
-    for maxsize, block, threads, fault, pto in itertools.product((1, 2), (True, False), ([1, 1], [2, 1], [1, 1, 1]), ("rreset", "refused"), (None, 0.05)):
+    for maxsize, block, threads, fault, pto in itertools.product((1, 2), (True, False), ([1, 1], [2, 1], [1, 1, 1]), ("rreset", "refused", "garbage"), (None, 0.05)):
         if (not block and pto is not None) or (maxsize == 2 and threads == [1, 1]):
             continue
         out.append({"maxsize": maxsize, "block": block, "threads": threads, "closer": False, "fault": fault, "fault_at": 0, "pool_timeout": pto, "retries": "none"})
@@ -282,7 +285,7 @@ def shards(tier, seed):
     for ci, cfg in enumerate(cfgs):
         small = cfg["maxsize"] == 1 and cfg["threads"] == [1, 1]
         if tier == "quick":
-            if ci % 5 == 0 or (small and cfg["fault"] in (None, "rreset")) or (cfg.get("retries") == "none" and cfg["block"] and cfg["maxsize"] == 1):
+            if ci % 5 == 0 or (small and cfg["fault"] in (None, "rreset", "garbage")) or (cfg.get("retries") == "none" and cfg["block"] and cfg["maxsize"] == 1):
                 out.append({"part": "dfs", "config": ci, "bound": 2 if (small and cfg["fault"] is None and not cfg["closer"]) else 1, "deep": False, "max_runs": 1500})
             out.append({"part": "random", "config": ci, "n": _scale(25), "seed": core.derive_seed(seed, "r", ci), "deep": False})
         else:
